@@ -4,20 +4,27 @@ import (
 	"bytes"
 	"fmt"
 	"math/rand"
+	"os"
 	"time"
 
 	"cosmossdk.io/log"
 
+	cmtproto "github.com/cometbft/cometbft/proto/tendermint/types"
 	dbm "github.com/cosmos/cosmos-db"
 	"github.com/cosmos/cosmos-sdk/baseapp"
+	"github.com/cosmos/cosmos-sdk/client"
+	"github.com/cosmos/cosmos-sdk/codec"
 	cryptotypes "github.com/cosmos/cosmos-sdk/crypto/types"
 	simtestutil "github.com/cosmos/cosmos-sdk/testutil/sims"
 	sdk "github.com/cosmos/cosmos-sdk/types"
+	ibckeeper "github.com/cosmos/ibc-go/v10/modules/core/keeper"
 
 	abci "github.com/cometbft/cometbft/abci/types"
 	cmttypes "github.com/cometbft/cometbft/types"
 
+	appConsumer "github.com/cosmos/interchain-security/v7/app/consumer"
 	appProvider "github.com/cosmos/interchain-security/v7/app/provider"
+	consumertypes "github.com/cosmos/interchain-security/v7/x/ccv/consumer/types"
 	providertypes "github.com/cosmos/interchain-security/v7/x/ccv/provider/types"
 	ccv "github.com/cosmos/interchain-security/v7/x/ccv/types"
 )
@@ -25,40 +32,147 @@ import (
 // Tier2Stores are compared byte for byte between the branching driver and the full ABCI stack.
 var Tier2Stores = []string{"provider", "staking", "slashing"}
 
-// ReplayThroughABCI executes a recorded linear execution (fixture prefix + trace) on a freshly built
-// provider application through the real ABCI entry points — InitChain, FinalizeBlock with signed
-// transactions going through the ante handlers, Commit (IAVL, app hash) — and compares, after every
-// block, the committed content of the provider, staking and slashing stores and the returned
-// validator updates with what the branching driver produced at the same point.
-// Masked: staking HistoricalInfo (contains header hashes) and the consensus-state root /
-// next-validators hash inside recorded consumer genesis states (taken from the header).
+// FullApp is what the conformance replay needs from an application (both apps offer it).
+type FullApp interface {
+	ABCIApp
+	InitChain(*abci.RequestInitChain) (*abci.ResponseInitChain, error)
+	FinalizeBlock(*abci.RequestFinalizeBlock) (*abci.ResponseFinalizeBlock, error)
+	Commit() (*abci.ResponseCommit, error)
+	NewUncachedContext(isCheckTx bool, header cmtproto.Header) sdk.Context
+	TxConfig() client.TxConfig
+	AppCodec() codec.Codec
+	GetIBCKeeper() *ibckeeper.Keeper
+	LoadLatestVersion() error
+	AnteHandler() sdk.AnteHandler
+	SetAnteHandler(sdk.AnteHandler)
+	SetEndBlocker(sdk.EndBlocker)
+}
+
+// ReplaySpec describes the chain a recorded execution belongs to.
+type ReplaySpec struct {
+	NewApp      func() FullApp // built with loadLatest=false so that the two replay hooks can be installed
+	ChainID     string
+	Genesis     []byte
+	GenesisTime time.Time
+	InitVals    []abci.ValidatorUpdate
+	Accts       []Acct // genesis accounts in account-number order
+}
+
+// ReplayThroughABCI executes a recorded linear execution of the provider (fixture prefix + trace).
 func ReplayThroughABCI(p *Provider, rec *Recorder) (blocks int, err error) {
+	return ReplayChain(ReplaySpec{
+		NewApp: func() FullApp {
+			return appProvider.New(log.NewNopLogger(), dbm.NewMemDB(), nil, false, simtestutil.EmptyAppOptions{}, baseapp.SetChainID(p.Cfg.ChainID))
+		},
+		ChainID: p.Cfg.ChainID, Genesis: p.GenesisBytes, GenesisTime: GenesisTime, InitVals: p.InitVals, Accts: p.Accts,
+	}, rec)
+}
+
+// ReplayConsumerThroughABCI does the same for a consumer chain booted by ConsumerApp.Boot.
+func ReplayConsumerThroughABCI(chainID string, rec *Recorder) (blocks int, err error) {
+	return ReplayChain(ReplaySpec{
+		NewApp: func() FullApp {
+			return appConsumer.New(log.NewNopLogger(), dbm.NewMemDB(), nil, false, simtestutil.EmptyAppOptions{}, baseapp.SetChainID(chainID))
+		},
+		ChainID: chainID, Genesis: rec.Genesis, GenesisTime: rec.GenesisTime, InitVals: rec.InitVals, Accts: []Acct{Relayer},
+	}, rec)
+}
+
+// ReplayChain executes a recorded linear execution on a freshly built application through the real
+// ABCI entry points — InitChain, FinalizeBlock with signed transactions going through the ante
+// handlers (IBC core messages included), Commit (IAVL, app hash) — and compares, after every block,
+// the committed content of the recorded stores and the returned validator updates with what the
+// branching driver produced at the same point.
+// Two things the relayer model does have no transaction form and are re-applied through hooks
+// installed before the application is sealed: light-client refreshes (written at the recorded
+// position: before the transaction they preceded, or before EndBlock) and proof verification (the
+// oracle accepts exactly the claims that were verified against the real counterparty).
+// Masked: HistoricalInfo (contains header hashes) and the consensus-state root /
+// next-validators hash inside recorded consumer genesis states (taken from the header).
+func ReplayChain(spec ReplaySpec, rec *Recorder) (blocks int, err error) {
 	if rec.Tainted != "" {
 		return 0, fmt.Errorf("not replayable: %s", rec.Tainted)
 	}
-	app := appProvider.New(log.NewNopLogger(), dbm.NewMemDB(), nil, true, simtestutil.EmptyAppOptions{}, baseapp.SetChainID(p.Cfg.ChainID))
+	app := spec.NewApp()
+	// hooks: refreshes due before transaction #i of the current block / before EndBlock
+	var beforeTx map[int][]RecOp
+	var beforeEnd []RecOp
+	txIndex := 0
+	var hookErr error
+	apply := func(ctx sdk.Context, ops []RecOp) {
+		if os.Getenv("VERIF_T2_SABOTAGE") == "norefresh" {
+			return // self-test of the comparison: without the refreshes the replay must disagree
+		}
+		for _, op := range ops {
+			if op.Raw != nil {
+				cctx, write := ctx.CacheContext()
+				if err := op.Raw(app, cctx); err != nil {
+					if hookErr == nil {
+						hookErr = fmt.Errorf("harness-level operation %q succeeded in the driver but fails in the ABCI replay: %w", op.RawName, err)
+					}
+					continue
+				}
+				write()
+				continue
+			}
+			r := op.Refresh
+			if r.Force {
+				forceRefreshClient(ctx, app.GetIBCKeeper(), r.ClientID, r.Height, r.Time)
+			} else {
+				refreshClient(ctx, app.GetIBCKeeper(), r.ClientID, r.Height, r.Time)
+			}
+		}
+	}
+	orig := app.AnteHandler()
+	app.SetAnteHandler(func(ctx sdk.Context, tx sdk.Tx, simulate bool) (sdk.Context, error) {
+		apply(ctx, beforeTx[txIndex])
+		txIndex++
+		return orig(ctx, tx, simulate)
+	})
+	app.SetEndBlocker(func(ctx sdk.Context) (sdk.EndBlock, error) {
+		apply(ctx, beforeEnd)
+		return app.EndBlocker(ctx)
+	})
+	if err := app.LoadLatestVersion(); err != nil {
+		return 0, fmt.Errorf("LoadLatestVersion: %w", err)
+	}
+	if len(rec.Claims) > 0 {
+		o := OracleFor(app.GetIBCKeeper())
+		o.Recorded = map[string]int{}
+		for _, c := range rec.Claims {
+			if os.Getenv("VERIF_T2_SABOTAGE") == "noclaims" {
+				break // self-test: without the recorded claims every IBC transaction must fail in the replay
+			}
+			o.Recorded[claimKey(c.Store, c.Key, c.Value)]++
+		}
+	}
 	cp := cmttypes.DefaultConsensusParams().ToProto()
-	res, err := app.InitChain(&abci.RequestInitChain{ChainId: p.Cfg.ChainID, Time: GenesisTime, InitialHeight: 1, ConsensusParams: &cp, AppStateBytes: p.GenesisBytes})
+	res, err := app.InitChain(&abci.RequestInitChain{ChainId: spec.ChainID, Time: spec.GenesisTime, InitialHeight: 1, ConsensusParams: &cp, AppStateBytes: spec.Genesis})
 	if err != nil {
 		return 0, fmt.Errorf("InitChain: %w", err)
 	}
-	if a, b := fmt.Sprint(sortUpdates(res.Validators)), fmt.Sprint(sortUpdates(p.InitVals)); a != b {
+	if a, b := fmt.Sprint(sortUpdates(res.Validators)), fmt.Sprint(sortUpdates(spec.InitVals)); a != b {
 		return 0, fmt.Errorf("InitChain validators differ: ABCI %s, driver %s", a, b)
 	}
 	accNum := map[string]uint64{}
 	seq := map[string]uint64{}
 	priv := map[string]cryptotypes.PrivKey{}
-	for i, a := range p.Accts {
+	for i, a := range spec.Accts {
 		accNum[a.Addr.String()] = uint64(i)
 		priv[a.Addr.String()] = a.Priv
 	}
 	txCfg := app.TxConfig()
 	rnd := rand.New(rand.NewSource(1))
 	height := int64(1)
-	blockTime := GenesisTime.Add(5 * time.Second)
+	blockTime := spec.GenesisTime.Add(5 * time.Second)
 	var txs [][]byte
 	var expectRejected []bool
+	beforeTx = map[int][]RecOp{}
 	for _, op := range rec.Ops {
+		if op.Refresh != nil || op.Raw != nil {
+			beforeTx[len(txs)] = append(beforeTx[len(txs)], op)
+			continue
+		}
 		if !op.Block {
 			signers, _, e := app.AppCodec().GetMsgV1Signers(op.Msg)
 			if e != nil || len(signers) != 1 {
@@ -69,7 +183,7 @@ func ReplayThroughABCI(p *Provider, rec *Recorder) (blocks int, err error) {
 			if !ok {
 				return blocks, fmt.Errorf("not replayable: %T is signed by %s (module account), which only a governance proposal can do", op.Msg, addr)
 			}
-			tx, e := simtestutil.GenSignedMockTx(rnd, txCfg, []sdk.Msg{op.Msg}, sdk.NewCoins(), 50_000_000, p.Cfg.ChainID, []uint64{accNum[addr]}, []uint64{seq[addr]}, pk)
+			tx, e := simtestutil.GenSignedMockTx(rnd, txCfg, []sdk.Msg{op.Msg}, sdk.NewCoins(), 50_000_000, spec.ChainID, []uint64{accNum[addr]}, []uint64{seq[addr]}, pk)
 			if e != nil {
 				return blocks, fmt.Errorf("signing %T: %w", op.Msg, e)
 			}
@@ -85,9 +199,16 @@ func ReplayThroughABCI(p *Provider, rec *Recorder) (blocks int, err error) {
 		if op.Height != height {
 			return blocks, fmt.Errorf("recorded block height %d, ABCI replay is at %d", op.Height, height)
 		}
+		// refreshes recorded after the last transaction happen right before EndBlock
+		beforeEnd = beforeTx[len(txs)]
+		delete(beforeTx, len(txs))
+		txIndex = 0
 		fr, e := app.FinalizeBlock(&abci.RequestFinalizeBlock{Height: height, Time: blockTime, Txs: txs})
 		if e != nil {
 			return blocks, fmt.Errorf("FinalizeBlock(%d): %w", height, e)
+		}
+		if hookErr != nil {
+			return blocks, fmt.Errorf("block %d: %w", height, hookErr)
 		}
 		for i, r := range fr.TxResults {
 			if (r.Code != 0) != expectRejected[i] {
@@ -100,8 +221,8 @@ func ReplayThroughABCI(p *Provider, rec *Recorder) (blocks int, err error) {
 		if _, e := app.Commit(); e != nil {
 			return blocks, fmt.Errorf("Commit(%d): %w", height, e)
 		}
-		ctx := app.NewUncachedContext(false, WithHeader(sdk.Context{}, p.Cfg.ChainID, height, blockTime).BlockHeader())
-		for _, st := range Tier2Stores {
+		ctx := app.NewUncachedContext(false, WithHeader(sdk.Context{}, spec.ChainID, height, blockTime).BlockHeader())
+		for _, st := range rec.Stores {
 			if d := diffMasked(st, op.Dumps[st], Dump(ctx, app, st)); d != "" {
 				return blocks, fmt.Errorf("block %d: store %q differs between the driver and the ABCI stack: %s", height, st, d)
 			}
@@ -110,6 +231,7 @@ func ReplayThroughABCI(p *Provider, rec *Recorder) (blocks int, err error) {
 		height++
 		blockTime = op.NextTime
 		txs, expectRejected = nil, nil
+		beforeTx = map[int][]RecOp{}
 	}
 	return blocks, nil
 }
@@ -131,6 +253,9 @@ func sortUpdates(u []abci.ValidatorUpdate) []string {
 
 func maskKV(store string, kv KV) (KV, bool) {
 	if store == "staking" && len(kv.K) > 0 && kv.K[0] == 0x50 { // HistoricalInfoKey: header hashes
+		return kv, false
+	}
+	if store == consumertypes.StoreKey && len(kv.K) > 0 && kv.K[0] == consumertypes.HistoricalInfoKeyPrefix()[0] {
 		return kv, false
 	}
 	if store == "provider" && len(kv.K) > 0 && kv.K[0] == providertypes.ConsumerGenesisKey("x")[0] {
